@@ -117,14 +117,23 @@ func (b *B) CTime(pn string, t int64) {
 	b.MW.CTime[pn] = t
 }
 
-// Q runs one query op; it returns the canonical answer and the raw result refs.
+// Q runs one query op WITHOUT recording it; it returns the op line, the canonical answer, the raw
+// result refs, the candidate source the hook reported and the error text. The caller records the
+// op with Emit when the answer is a function of the op lines alone (see runner.query).
 func (b *B) Q(sortName string, limit int, c *Cons) (line, out string, refs []string, src, errText string) {
 	line = fmt.Sprintf("q %s %d %s", sortName, limit, c.Words())
-	out, refs = b.w.query(sortOfName[sortName], limit, c)
+	out = hk.Guard(func() string {
+		var o string
+		o, refs = b.w.query(sortOfName[sortName], limit, c)
+		return o
+	})
+	return line, out, refs, b.w.lastSrc, b.w.lastErr
+}
+
+func (b *B) Emit(line, out string) {
 	if b.emit != nil {
 		b.emit(line, out)
 	}
-	return line, out, refs, b.w.lastSrc, b.w.lastErr
 }
 
 // Raw executes any op line (times, pv, malformed lines).
